@@ -397,8 +397,15 @@ func fsmStats(c *vCtx, v *fsmView, r *fsmRun) {
 }
 
 func runFsmCase(c *vCtx, idx int64, prop string, oracle fsmOracle, cfg fsmConfig, evs []fsmEvent, class string) {
+	runFsmCaseFaults(c, idx, prop, oracle, cfg, evs, class, 0)
+}
+
+// runFsmCaseFaults: writeFaultPct > 0 makes post-trigger WriteFrame calls fail at that rate
+// (storage hiccups must not change which frames a recording is made of or when it ends).
+func runFsmCaseFaults(c *vCtx, idx int64, prop string, oracle fsmOracle, cfg fsmConfig, evs []fsmEvent, class string, writeFaultPct int) {
 	c.Case(idx, func() interface{} {
 		r := newFsmRun(cfg)
+		r.writeFaultPct, r.faultRNG = writeFaultPct, vNewRNG(uint64(idx), 99)
 		for _, e := range evs {
 			r.step(e)
 		}
@@ -407,11 +414,21 @@ func runFsmCase(c *vCtx, idx int64, prop string, oracle fsmOracle, cfg fsmConfig
 			"trace":  traceString(r.steps, 80)}
 	}, func() {
 		r := newFsmRun(cfg)
+		r.writeFaultPct, r.faultRNG = writeFaultPct, vNewRNG(uint64(idx), 99)
 		for _, e := range evs {
 			s := r.step(e)
 			if s.Panic != "" {
 				c.Violation("panic", class, fmt.Sprintf("processor panicked at step %d: %s", len(r.steps)-1, s.Panic))
 				return
+			}
+		}
+		if writeFaultPct > 0 {
+			for _, st := range r.steps {
+				for _, op := range st.Ops[sinkMotion] {
+					if op.Op == opWrite && op.Err {
+						c.Count("post_trigger_write_faults", 1)
+					}
+				}
 			}
 		}
 		v := newFsmView(r)
@@ -586,7 +603,11 @@ func TestVerif_FSM(t *testing.T) {
 			n = 7000
 		}
 		evs := fsmRandomScript(rng, cfg, n, rng.Chance(70))
-		runFsmCase(c, myIdx, prop, oracle, cfg, evs, "random-script")
+		if s%5 == 4 {
+			runFsmCaseFaults(c, myIdx, prop, oracle, cfg, evs, "random-script-with-write-faults", rng.PickInt(5, 30, 100))
+		} else {
+			runFsmCase(c, myIdx, prop, oracle, cfg, evs, "random-script")
+		}
 	}
 
 	// Part 4: trigger placed at every position after start-up and after a
